@@ -673,7 +673,7 @@ def gen_C07(tier, rng):
     for s in shapes:
         n = prod(s)
         ins = [("leaf", False, s, [float((3 * i) % 7 - 2) for i in range(n)])]
-        for k in range(0, len(s) + 1):
+        for k in range(0, len(s) + 3):       # corgi accepts k beyond the rank: the [1] total
             ins.append(("op", ("sum", k), [0]))
         ins.append(("sumall", 0))
         cases.append(case("sum", ins, "sum:rank%d" % len(s)))
@@ -1394,7 +1394,8 @@ TIED_PARAMETERS = True
 
 def gen_C13(tier, rng):
     cases = []
-    pool = [[1], [2], [3], [2, 2], [1, 3], [3, 1], [2, 3], [2, 1, 2], [4], [1, 1], [2, 2, 2]]
+    # [] is a rank-0 parameter (a scalar gain built from dimensions [] and one value): one element, no dimensions
+    pool = [[1], [2], [3], [2, 2], [1, 3], [3, 1], [2, 3], [2, 1, 2], [4], [1, 1], [2, 2, 2], []]
     count = 700 if tier == "quick" else 8000
     k = 0
     for n in (1, 2, 3, 4, 5):
@@ -1426,7 +1427,7 @@ def gen_C13(tier, rng):
                             g = rvals(rng, prod(d), exact)
                             ins.append(("backward", p, (d, g)))
                             grads.append(g)
-                            if rng.random() < 0.15:      # accumulate a second contribution
+                            if d and rng.random() < 0.15:      # accumulate a second contribution (rank-0 arrays cannot be added)
                                 g2 = rvals(rng, prod(d), exact)
                                 ins.append(("backward", p, (d, g2)))
                                 grads[-1] = [a + b2 for a, b2 in zip(g, g2)]
@@ -2093,6 +2094,17 @@ def gen_C09(tier, rng):
                         ins += [("backward", r2, None), ("grad", 0), ("grad", 1)]
                     cases.append(case("conv_mask", ins, "conv_tracking:%s" % (
                         "full_cover" if (fr, fc) == (ir, ic) else "partial")))
+    # sum(k) for every k from 0 to rank + 2 (corgi accepts k beyond the rank: the result is the [1] total), tracked and
+    # untracked operand, the result used further with an untracked constant and differentiated
+    for s in ([3], [2, 3], [2, 1, 2]):
+        for k in range(0, len(s) + 3):
+            for tr in (False, True):
+                n = prod(s)
+                ins = [("leaf", tr, s, [float(i + 1) for i in range(n)]), ("op", ("sum", k), [0]), ("obs", 1),
+                       ("leaf", False, [1], [3.0]), ("op", ("mul",), [1, 3]), ("obs", 4)]
+                if tr:
+                    ins += [("backward", 4, None), ("grad", 0), ("obs", 1)]
+                cases.append(case("sum_k", ins, "sum_beyond_rank" if k > len(s) else "sum_k"))
     # only the additive term of matmul tracked
     for shape_c in ([2], [2, 2], [1, 2], [1]):
         for mask in itertools.product((False, True), repeat=3):
@@ -2215,6 +2227,65 @@ def gen_C10(tier, rng):
             s["adjudicate"] = [i for i, _ in final]
             cases.append(s)
     cases += flag_dance_cases(rng, 80 if tier == "quick" else 1000)
+    # ONE node reached in the same pass through an untracked entry and through tracked ones, in either order: a frozen
+    # clone of a leaf (or of an interior result) multiplied with the leaf itself; a frozen branch and a live branch
+    # joined by an addition.  The untracked entry receives nothing and triggers nothing.
+    for n2 in range(100 if tier == "quick" else 1200):
+        d = rng.choice([[2], [3], [2, 2]])
+        nel = prod(d)
+        ins = [("leaf", True, d, int_vals(nel, rng)), ("leaf", True, d, int_vals(nel, rng))]
+        src = 0
+        if n2 % 3 == 2:
+            ins.append(("op", (rng.choice(["mul", "add"]),), [0, 1]))   # the shared node is an interior result
+            src = 2
+        ins.append(("clone", src))
+        fz = len(ins) - 1
+        ins.append((rng.choice(["stop", "untracked"]), fz))
+        form = n2 % 4
+        kind2 = rng.choice(["mul", "add", "sub"])
+        if form == 0:
+            ins.append(("op", (kind2,), [fz, src]))
+        elif form == 1:
+            ins.append(("op", (kind2,), [src, fz]))
+        else:
+            ins.append(("op", ("mul",), [fz, 1]))
+            left = len(ins) - 1
+            ins.append(("op", ("mul",), [src, 1]))
+            right = len(ins) - 1
+            ins.append(("op", ("add",), [left, right] if form == 2 else [right, left]))
+        root = len(ins) - 1
+        gat = []
+        av_, bv_ = ins[0][3], ins[1][3]
+        ga_, gb_ = [0.0] * nel, [0.0] * nel
+        expect = []
+        for _ in range(rng.randint(1, 3)):
+            sd = int_vals(nel, rng, -2, 3) if rng.random() < 0.7 else None
+            ins.append(("backward", root, (d, sd) if sd is not None else None))
+            sv_ = sd if sd is not None else [1.0] * nel
+            if src == 0:
+                # closed form: only the TRACKED entry of the leaf carries a derivative
+                if form in (0, 1):
+                    if kind2 == "mul":
+                        ga_ = [g_ + s_ * a_ for g_, s_, a_ in zip(ga_, sv_, av_)]
+                    elif kind2 == "add" or form == 1:
+                        ga_ = [g_ + s_ for g_, s_ in zip(ga_, sv_)]
+                    else:
+                        ga_ = [g_ - s_ for g_, s_ in zip(ga_, sv_)]
+                else:
+                    ga_ = [g_ + s_ * b_ for g_, s_, b_ in zip(ga_, sv_, bv_)]
+                    gb_ = [g_ + 2 * s_ * a_ for g_, s_, a_ in zip(gb_, sv_, av_)]
+            for leaf in (0, 1):
+                ins.append(("grad", leaf))
+                gat.append(len(ins) - 1)
+                if src == 0 and (leaf == 0 or form >= 2):
+                    expect.append((len(ins) - 1, d, list(ga_ if leaf == 0 else gb_)))
+        for v in (0, 1, src, fz, root):
+            ins.append(("probe", v))
+            gat.append(len(ins) - 1)
+        c = case("mixed_entries", ins, "untracked_and_tracked_entries_of_one_node")
+        c["adjudicate"] = gat
+        c["expect_at"] = expect
+        cases.append(c)
     # seeds that are EXISTING arrays handed over as they are (the same array for several passes, a gradient read
     # back and used as the next seed, a clone of a leaf): passes through operations that forward the delta
     # unchanged (add, sub, reshape, sum(0), the root itself) must still ADD to what is stored
@@ -2837,6 +2908,9 @@ def ref_forward(layers, params, x, xd, info):
 
 
 def ref_loss(cost, out, od, target):
+    if len(target) != len(out):
+        # a target of trailing dimensions only (one row for the whole batch): broadcast = tiling in row-major order
+        target = [target[i % len(target)] for i in range(len(out))]
     if cost == "mse":
         return sum((t - o) ** 2 for t, o in zip(target, out)) / prod(od)
     return sum(-t * math.log(o) for t, o in zip(target, out)) / od[0]
@@ -2925,7 +2999,13 @@ def model_case(rng, tier):
             t = [rng.choice([0.0, 1.0, 0.5]) for _ in range(prod(out_dims))]
         else:
             t = [rng.uniform(-1, 1) for _ in range(prod(out_dims))]
-        ins.append(("leaf", False, out_dims, t))
+        t_dims = out_dims
+        if cost == "mse" and len(out_dims) >= 2 and prod(out_dims[:-1]) > 1 and rng.random() < 0.2:
+            # one target for the whole batch: trailing dimensions only; the cost still divides by the OUTPUT's count
+            keep = rng.randint(1, len(out_dims) - 1)
+            t_dims = out_dims[len(out_dims) - keep:]
+            t = t[:prod(t_dims)]
+        ins.append(("leaf", False, t_dims, t))
         ti = len(ins) - 1
         double = rng.random() < 0.15
         ins.append(("mbackward", ti))
@@ -3231,12 +3311,24 @@ def gen_C08(tier, rng):
                 # optimizer update of some leaves: the handle is re-bound, older clones must stay intact
                 ps = [v for v in leaves if v.tracked and rng.random() < 0.7 and not getattr(v, "alias", False)]
                 if ps:
+                    plist = []
                     for v in ps:
+                        first = v
                         if rng.random() < 0.5:
-                            h.clone(v)
-                    h.emit(("update", rng.choice([0.5, 0.25]), [v.idx for v in ps]))
-                    for v in ps:
+                            w = h.clone(v)
+                            if rng.random() < 0.4:
+                                # the clone is handed to the update as well (tied weights): whichever of the two
+                                # comes first may be re-bound, the other one must keep showing the old values
+                                if rng.random() < 0.5:
+                                    plist += [v.idx, w.idx]
+                                else:
+                                    plist += [w.idx, v.idx]
+                                    first = w
+                                epoch[first.idx] = epoch.get(first.idx, 0) + 1
+                                continue
+                        plist.append(v.idx)
                         epoch[v.idx] = epoch.get(v.idx, 0) + 1
+                    h.emit(("update", rng.choice([0.5, 0.25]), plist))
             else:
                 cands = [v for v in ops if rng.random() < 0.5]
                 if cands:
